@@ -145,6 +145,12 @@ class NdContract(Contract):
                 eng.oblige(st, "reshape_1_of_a_single_element", size_of(recv.shape) == 1, "shape", node)
                 return self._derive(recv, shape=(1,), kind="ndarray", prov="ERASED")
             raise Unsupported(f"reshape({tgt})")
+        if name == "numpy.sign" and is_nd(a0) and getattr(a0, "cell", None) is not None:
+            c = a0.cell
+            return self._derive(a0, name=f"sign({a0.name})", cell=lambda *ix: If(to_real_(c(*ix)) > 0, z3.RealVal(1), If(to_real_(c(*ix)) < 0, z3.RealVal(-1), z3.RealVal(0))))
+        if name in ("numpy.abs", "numpy.absolute") and is_nd(a0) and getattr(a0, "cell", None) is not None:
+            c = a0.cell
+            return self._derive(a0, name=f"abs({a0.name})", cell=lambda *ix: If(to_real_(c(*ix)) >= 0, to_real_(c(*ix)), -to_real_(c(*ix))))
         if name == "numpy.ones" and a0 is not None and not is_nd(a0):
             return Nd("ones", (a0,), "ndarray", "ERASED", all_ones=True)
         if name == "numpy.zeros" and a0 is not None and not is_nd(a0):
